@@ -19,7 +19,7 @@ def _get_story_offsets(all_stories: Optional[List[Element]]) -> Optional[Dict[st
         t = 0
         for story in all_stories:
             story_offsets[story.find('storyID').text] = t
-            t += _get_story_duration(story)
+            t += _get_story_duration(story) or 0
         return story_offsets
 
 
@@ -31,6 +31,8 @@ def _get_story_duration(story_tag: Element) -> Optional[float]:
         metadata = story_tag.find('mosExternalMetadata')
         payload = metadata.find('mosPayload')
     except AttributeError:
+        return
+    if payload is None:
         return
 
     try:
